@@ -12,7 +12,7 @@ namespace th {
 using namespace yakushima;
 using ykc::Model;
 
-enum OpKind { GET, PUT, UPUT, REMOVE, SCAN };
+enum OpKind { GET, PUT, UPUT, REMOVE, SCAN, ISCAN };
 
 struct Op {
     OpKind kind = GET;
@@ -24,6 +24,7 @@ struct Op {
     std::size_t max = 0;
     bool r2l = false;
     bool want_nv = false;
+    bool early = false;       // iscan: early_abort
 };
 
 inline std::string op_name(const Op& o) {
@@ -32,8 +33,9 @@ inline std::string op_name(const Op& o) {
         case PUT: return "put(" + ykc::hex(o.key) + "," + std::to_string(o.gen) + ")";
         case UPUT: return "uput(" + ykc::hex(o.key) + "," + std::to_string(o.gen) + ")";
         case REMOVE: return "remove(" + ykc::hex(o.key) + ")";
+        case ISCAN:
         case SCAN: {
-            std::string s = "scan(";
+            std::string s = o.kind == ISCAN ? (o.early ? "iscan_early(" : "iscan(") : "scan(";
             s += o.le == scan_endpoint::INF ? "-inf" : (o.le == scan_endpoint::INCLUSIVE ? "[" : "(") + ykc::hex(o.key);
             s += ",";
             s += o.re == scan_endpoint::INF ? "+inf" : ykc::hex(o.rkey) + (o.re == scan_endpoint::INCLUSIVE ? "]" : ")");
@@ -263,6 +265,42 @@ public:
                 case PUT: r.st = ykc::t_put(tokens[size_t(tid)], ti, o.key, ykc::val_of(o.key, o.gen), false); break;
                 case UPUT: r.st = ykc::t_put(tokens[size_t(tid)], ti, o.key, ykc::val_of(o.key, o.gen), true); break;
                 case REMOVE: r.st = ykc::t_remove(tokens[size_t(tid)], ti, o.key); break;
+                case ISCAN: {
+                    iscan_context* ctx = nullptr;
+                    void* val = nullptr;
+                    auto cb = [&r, &o](node_version64* p, node_version64_body v) {
+                        if (o.want_nv) r.nv.emplace_back(v, p);
+                        return false;
+                    };
+                    std::string ll = o.key;
+                    scan_endpoint lle = o.le;
+                    if (lle == scan_endpoint::INF) {
+                        ll = "";
+                        lle = scan_endpoint::INCLUSIVE;
+                    }
+                    status st = iscan_open(ti, ll, lle, o.rkey, o.re, ctx, val, cb, o.r2l, o.early);
+                    int guard = 0;
+                    while (st == status::OK && guard++ < 400) {
+                        std::string k = ctx->full_key();
+                        // the cursor API has no length: the stored values are val_of(key, gen) strings, read up to the generation's length
+                        std::string bytes = "<null>";
+                        if (val != nullptr) {
+                            const char* c = static_cast<const char*>(val);
+                            size_t n = 0;
+                            std::string base = ykc::val_of(k, 0);
+                            // values of generation g are val_of(k,0) with the digit replaced and g '+' appended
+                            n = base.size();
+                            bytes.assign(c, n);
+                            int gen = bytes.size() > 1 ? bytes[1] - '0' : 0;
+                            if (gen > 0 && gen < 10) bytes.assign(c, n + size_t(gen));
+                        }
+                        r.scan_out.emplace_back(k, bytes);
+                        st = iscan_next(ctx, val, cb);
+                    }
+                    r.st = st;
+                    if (ctx != nullptr) iscan_close(ctx);
+                    break;
+                }
                 case SCAN: {
                     std::vector<ykc::ScanTuple> out;
                     r.st = ykc::t_scan(ti, o.key, o.le, o.rkey, o.re, out, o.want_nv ? &r.nv : nullptr, o.max, o.r2l);
@@ -287,7 +325,7 @@ public:
             for (auto& r : tr) {
                 o << "T" << r.tid << " " << op_name(r.op) << "[" << r.call << "," << r.ret << "]->" << ykc::st_name(r.st);
                 if (r.op.kind == GET && r.st == status::OK) o << ":" << (r.null_ok ? "<null>" : ykc::hex(r.bytes));
-                if (r.op.kind == SCAN) {
+                if (r.op.kind == SCAN || r.op.kind == ISCAN) {
                     o << ":{";
                     for (auto& kv : r.scan_out) o << ykc::hex(kv.first) << "=" << ykc::hex(kv.second) << " ";
                     o << "}";
@@ -304,7 +342,7 @@ public:
             for (auto& r : tr) {
                 o << int(r.st);
                 if (r.op.kind == GET && r.st == status::OK) o << (r.null_ok ? "N" : r.bytes);
-                if (r.op.kind == SCAN) {
+                if (r.op.kind == SCAN || r.op.kind == ISCAN) {
                     for (auto& kv : r.scan_out) o << kv.first << "=" << kv.second << ",";
                     o << "#" << r.nv.size();
                 }
@@ -336,7 +374,7 @@ public:
         std::vector<const Rec*> scans;
         for (auto& tr : recs) {
             for (auto& rc : tr) {
-                if (rc.op.kind == SCAN) scans.push_back(&rc); else points.push_back(&rc);
+                if (rc.op.kind == SCAN || rc.op.kind == ISCAN) scans.push_back(&rc); else points.push_back(&rc);
             }
         }
         if ((oracles & O_LIN) != 0) {
@@ -400,22 +438,46 @@ public:
     }
 
     void check_scan(ykmc::ExecResult& r, const Rec& s, const std::vector<const Rec*>& points) {
-        if (s.st != status::OK && s.st != status::OK_ROOT_IS_NULL) {
+        bool is_cursor = s.op.kind == ISCAN;
+        bool aborted = false;
+        if (is_cursor) {
+            if (s.st == status::WARN_CONCURRENT_OPERATIONS && s.op.early) {
+                aborted = true;
+            } else if (s.st != status::OK_SCAN_END) {
+                fail(r, "iscan:status", std::string("cursor iteration ended with ") + ykc::st_name(s.st));
+                return;
+            }
+        } else if (s.st != status::OK && s.st != status::OK_ROOT_IS_NULL) {
             fail(r, "scan:status", std::string("scan returned ") + ykc::st_name(s.st));
+            return;
+        }
+        const char* pf = is_cursor ? "iscan" : "scan";
+        if (is_cursor && s.op.r2l) {
+            // descending production: check on the reversed list, truncation then cuts the low side
+            Rec rev = s;
+            std::reverse(rev.scan_out.begin(), rev.scan_out.end());
+            rev.op.kind = SCAN;
+            rev.st = status::OK;
+            rev.op.r2l = aborted;
+            rev.op.max = aborted ? rev.scan_out.size() : 0;
+            if (aborted && rev.scan_out.empty()) return;
+            std::size_t before = r.verdict;
+            check_scan(r, rev, points);
+            if (r.verdict != int(before) && r.symptom.rfind("scan:", 0) == 0) r.symptom = "iscan:" + r.symptom.substr(5);
             return;
         }
         // order, range, null
         for (std::size_t i = 0; i < s.scan_out.size(); ++i) {
             if (s.scan_out[i].second == "<null>") {
-                fail(r, "scan:null_value", "scan returned a null value pointer for key " + ykc::hex(s.scan_out[i].first));
+                fail(r, std::string(pf) + ":null_value", "returned a null value pointer for key " + ykc::hex(s.scan_out[i].first));
                 return;
             }
             if (i > 0 && !(s.scan_out[i - 1].first < s.scan_out[i].first)) {
-                fail(r, "scan:order", "scan result not strictly ascending");
+                fail(r, std::string(pf) + ":order", "result not strictly monotone");
                 return;
             }
             if (!key_in_range(s.scan_out[i].first, s.op)) {
-                fail(r, "scan:out_of_range", "scan returned key outside the interval: " + ykc::hex(s.scan_out[i].first));
+                fail(r, std::string(pf) + ":out_of_range", "returned key outside the interval: " + ykc::hex(s.scan_out[i].first));
                 return;
             }
         }
@@ -427,11 +489,12 @@ public:
         for (auto& kv : init_model) universe.insert(kv.first);
         for (auto* p : points) universe.insert(p->op.key);
         std::map<std::string, std::string> got(s.scan_out.begin(), s.scan_out.end());
-        bool truncated = s.op.max != 0 && s.scan_out.size() >= s.op.max;
+        bool truncated = (s.op.max != 0 && s.scan_out.size() >= s.op.max) || aborted;
         for (auto& k : universe) {
             if (!key_in_range(k, s.op)) continue;
             auto it = got.find(k);
             if (it == got.end()) {
+                if (aborted && s.scan_out.empty()) continue;
                 if (truncated) {
                     if (!s.op.r2l && !s.scan_out.empty() && k > s.scan_out.back().first) continue; // beyond the cut
                     if (s.op.r2l && !s.scan_out.empty() && k < s.scan_out.front().first) continue;
@@ -443,7 +506,7 @@ public:
             }
             std::string e = key_binding_possible(k, writes, init_model, s.call, s.ret, it != got.end(), it != got.end() ? it->second : "");
             if (!e.empty()) {
-                fail(r, it != got.end() ? "scan:stale_or_foreign_value" : "scan:lost_key", e);
+                fail(r, std::string(pf) + (it != got.end() ? ":stale_or_foreign_value" : ":lost_key"), e);
                 return;
             }
         }
@@ -451,10 +514,11 @@ public:
 
     void check_phantom(ykmc::ExecResult& r, const Rec& s, const std::vector<const Rec*>& points) {
         if (!s.op.want_nv) return;
-        if (s.st == status::OK && s.nv.empty()) {
+        if (s.op.kind == SCAN && s.st == status::OK && s.nv.empty()) {
             fail(r, "phantom:empty_version_set", "scan returned OK with an empty node version set");
             return;
         }
+        if (s.op.kind == ISCAN && s.st != status::OK_SCAN_END) return; // aborted iterations promise nothing
         std::map<std::string, std::string> got(s.scan_out.begin(), s.scan_out.end());
         bool truncated = s.op.max != 0 && s.scan_out.size() >= s.op.max;
         for (auto* p : points) {
